@@ -141,6 +141,9 @@ def mk_icmp(op, a, b):
     if a[0] == 'ic' and b[0] == 'ic':
         x, y = a[1], b[1]
         return ('bc', {'lt': x < y, 'le': x <= y, 'gt': x > y, 'ge': x >= y, 'eq': x == y, 'ne': x != y}[op])
+    if a == b:
+        # one and the same integer value on both sides
+        return TRUE if op in ('eq', 'le', 'ge') else FALSE
     if a[0] == 'ic':
         a, b, op = b, a, CMP_SWAP[op]
     if b[0] == 'ic':
@@ -162,6 +165,13 @@ def mk_icmp(op, a, b):
 
 
 def mk_fcmp(op, a, b):
+    # a comparison of two finite literals is decided here
+    if isinstance(a, tuple) and isinstance(b, tuple) and a and b and a[0] == 'fc' and b[0] == 'fc':
+        fa, fb = f64_bits_to_fraction(a[1]), f64_bits_to_fraction(b[1])
+        if fa is not None and fb is not None:
+            r = {'lt': fa < fb, 'le': fa <= fb, 'gt': fa > fb, 'ge': fa >= fb, 'eq': fa == fb, 'ne': fa != fb}.get(op)
+            if r is not None:
+                return TRUE if r else FALSE
     return ('fcmp', op, a, b)
 
 
@@ -407,6 +417,10 @@ def simp(t, assume, memo=None):
             r = mk_or(parts[1], parts[2])
         elif h == 'not':
             r = mk_not(parts[1])
+        elif h == 'icmp':
+            r = mk_icmp(parts[1], parts[2], parts[3])
+        elif h == 'fcmp':
+            r = mk_fcmp(parts[1], parts[2], parts[3])
         else:
             r = parts
     else:
